@@ -9,7 +9,7 @@ func c05n() int {
 	if vrt.Tier() == 0 {
 		return 24
 	}
-	return 40
+	return 32
 }
 
 // C05 — NewPESHeader and its getters are total on every byte string up to the bound
